@@ -2,6 +2,7 @@
 //
 //	c06 random  -n N -out TRACE -res R             seeded random scenarios with schedule perturbation
 //	c06 scripts -in FILE -out TRACE -res R         TLC behaviours / directed schedules replayed with gates
+//	c06 pipeline -n N [-in FILE] -out TRACE -res R  the provider pipeline around it (pipeline.go, SLP.tla)
 //
 // Every scenario drives a real sdk/log BatchProcessor registered in a real LoggerProvider (Logger.Emit
 // -> newRecord -> OnEmit -> Clone is the real path), followed by a second processor that mutates the
@@ -340,7 +341,15 @@ func (warnSink) Info(_ int, msg string, kv ...any) {
 
 // ---------------------------------------------------------------- one scenario
 
-func runScenario(scn int, sc Scenario, tw *vh.TraceWriter, res *vh.Result) {
+// pts: also record one Pt line for every verif point a goroutine passes (input of Trace_BatchLPImpl.tla;
+// the contract monitor ignores them). Only a sample of the random scenarios gets them: a poll goroutine
+// that spins on a full buffer writes thousands.
+func runScenario(scn int, sc Scenario, pts bool, tw *vh.TraceWriter, res *vh.Result) {
+	pt := func(proc, point string, n int) {
+		if pts {
+			tw.Emit(map[string]any{"ev": "Pt", "sc": scn, "proc": proc, "point": point, "n": n})
+		}
+	}
 	rng := rand.New(rand.NewSource(sc.Seed))
 	sched := vh.NewSched(sc.Script, sc.Seed+7)
 	sched.Perturb = sc.Perturb
@@ -358,8 +367,28 @@ func runScenario(scn int, sc Scenario, tw *vh.TraceWriter, res *vh.Result) {
 	if sc.IntervalUs > 0 {
 		interval = time.Duration(sc.IntervalUs) * time.Microsecond
 	}
+	// emitters / recsPer / flushers / stoppers: the constants of BatchLP.tla for Trace_BatchLPImpl.tla (the
+	// implementation-shaped spec explains the same trace); untainted: no goroutine of an abandoned scenario is around,
+	// so LogDropped lines and empty QFlushed lines are still recorded and attributed reliably
+	fnames, snames := []string{}, []string{}
+	for f := 1; f <= sc.Flushers; f++ {
+		for j := 1; j <= sc.FlushesPer; j++ {
+			if sc.FlushesPer > 1 {
+				fnames = append(fnames, fmt.Sprintf("f%d.%d", f, j))
+			} else {
+				fnames = append(fnames, fmt.Sprintf("f%d", f))
+			}
+		}
+	}
+	for s := 1; s <= sc.Stoppers; s++ {
+		snames = append(snames, fmt.Sprintf("s%d", s))
+	}
+	if sc.Stoppers == 0 {
+		snames = append(snames, "s0")
+	}
 	tw.Emit(map[string]any{"ev": "Cfg", "sc": scn, "qcap": sc.QCap, "maxbatch": sc.MaxBatch, "bufsize": sc.BufSize,
-		"hooks": haveHooks, "name": sc.Name})
+		"hooks": haveHooks, "name": sc.Name, "kind": "batch", "emitters": sc.Emitters, "recsPer": sc.RecsPer,
+		"flushers": fnames, "stoppers": snames, "pts": pts, "untainted": !logTainted.Load()})
 	curScn.Store(int64(scn))
 	bp := sdklog.NewBatchProcessor(exp,
 		sdklog.WithMaxQueueSize(sc.QCap), sdklog.WithExportMaxBatchSize(sc.MaxBatch), sdklog.WithExportBufferSize(sc.BufSize),
@@ -403,6 +432,7 @@ func runScenario(scn int, sc Scenario, tw *vh.TraceWriter, res *vh.Result) {
 			if point == "blp.onemit.ignored" {
 				tw.Emit(map[string]any{"ev": "Ignored", "sc": scn, "id": id})
 			}
+			pt(fmt.Sprintf("g%d", id/1000), point, 0)
 			gate(owner[id] + "@" + point)
 		case "blp.q.enqueued": // queue lock held: log only, never wait
 			r, ok := args[0].(sdklog.Record)
@@ -427,6 +457,12 @@ func runScenario(scn int, sc Scenario, tw *vh.TraceWriter, res *vh.Result) {
 			tw.Emit(map[string]any{"ev": "Enq", "sc": scn, "id": id, "full": full, "over": over})
 		case "blp.q.offered", "blp.q.dequeued", "blp.q.restored", "blp.q.flushed": // queue lock held: log only
 			recs, ok := args[0].([]sdklog.Record)
+			if ok && len(recs) == 0 && point == "blp.q.flushed" && !logTainted.Load() {
+				// an empty final Flush(): nothing identifies the scenario, so it is only recorded while no goroutine of
+				// an abandoned scenario can be around (Cfg.untainted tells the monitor whether it may rely on it)
+				tw.Emit(map[string]any{"ev": "QFlushed", "sc": scn, "ids": []int{}})
+				return
+			}
 			if !ok || len(recs) == 0 {
 				return
 			}
@@ -458,6 +494,11 @@ func runScenario(scn int, sc Scenario, tw *vh.TraceWriter, res *vh.Result) {
 			if b, ok := args[0].(*sdklog.BatchProcessor); !ok || b != bp {
 				return
 			}
+			qlen := 0
+			if len(args) > 1 {
+				qlen, _ = args[1].(int)
+			}
+			pt("poll", point, qlen)
 			gate("poll@" + point)
 		default: // ForceFlush / Shutdown points carry the caller's ctx
 			ctx, ok := args[0].(context.Context)
@@ -474,6 +515,7 @@ func runScenario(scn int, sc Scenario, tw *vh.TraceWriter, res *vh.Result) {
 			case "blp.xff.stopped":
 				tw.Emit(map[string]any{"ev": "Early", "sc": scn, "proc": proc, "where": "exporter"})
 			}
+			pt(proc, point, 0)
 			gate(proc + "@" + point)
 		}
 	})
@@ -641,6 +683,7 @@ func main() {
 	}
 	fs := flag.NewFlagSet(os.Args[1], flag.ExitOnError)
 	n := fs.Int("n", 200, "")
+	npt := fs.Int("pt", 0, "random: the first N scenarios also record Pt lines")
 	in := fs.String("in", "", "")
 	out := fs.String("out", "trace.ndjson", "")
 	resF := fs.String("res", "result.json", "")
@@ -657,7 +700,7 @@ func main() {
 		r := rand.New(rand.NewSource(vh.Seed()))
 		for i := 0; i < *n; i++ {
 			sc := randomScenario(r)
-			runScenario(i, sc, tw, res)
+			runScenario(i, sc, i < *npt, tw, res)
 			res.Executed++
 			if i < 2 {
 				res.Sample(sc)
@@ -672,11 +715,37 @@ func main() {
 			if sc.Seed == 0 {
 				sc.Seed = vh.Seed() + int64(i)
 			}
-			runScenario(i, sc, tw, res)
+			runScenario(i, sc, true, tw, res)
 			res.Executed++
 			if i < 2 {
 				res.Sample(sc)
 			}
+		}
+	case "pipeline": // SLP.tla: directed schedules from -in (optional), then -n seeded random pipelines
+		i := 0
+		if *in != "" {
+			b, err := os.ReadFile(*in)
+			vh.Must(err)
+			var scs []PScenario
+			vh.Must(json.Unmarshal(b, &scs))
+			for _, sc := range scs {
+				if sc.Seed == 0 {
+					sc.Seed = vh.Seed() + int64(i)
+				}
+				runPipeline(i, sc, tw, res)
+				res.Executed++
+				i++
+			}
+		}
+		r := rand.New(rand.NewSource(vh.Seed() + 1000003))
+		for j := 0; j < *n; j++ {
+			sc := randomPipeline(r)
+			runPipeline(i, sc, tw, res)
+			res.Executed++
+			if j < 2 {
+				res.Sample(sc)
+			}
+			i++
 		}
 	default:
 		os.Exit(3)
